@@ -193,9 +193,25 @@ func (e *Engine) currentGroup() (grp *group) {
 	return
 }
 
+// hasCandidateRows returns true if at least one group has candidates to show.
+func (e *Engine) hasCandidateRows() bool {
+	for _, g := range e.groups {
+		if len(g.rows) > 0 {
+			return true
+		}
+	}
+
+	return false
+}
+
 // cycleNextGroup - Finds either the first non-empty group,
 // or the next non-empty group after the current one.
 func (e *Engine) cycleNextGroup() {
+	// Without any non-empty group there is nothing to cycle through.
+	if !e.hasCandidateRows() {
+		return
+	}
+
 	for pos, g := range e.groups {
 		if g.isCurrent {
 			g.isCurrent = false
@@ -223,6 +239,11 @@ func (e *Engine) cycleNextGroup() {
 
 // cyclePreviousGroup - Same as cycleNextGroup but reverse.
 func (e *Engine) cyclePreviousGroup() {
+	// Without any non-empty group there is nothing to cycle through.
+	if !e.hasCandidateRows() {
+		return
+	}
+
 	for pos, g := range e.groups {
 		if g.isCurrent {
 			g.isCurrent = false
